@@ -257,6 +257,11 @@ def check_media_chain(ctx, ck, rule='R-PAIR.media-chain'):
                 if isinstance(p_, (ast.For, ast.While)):
                     in_loop = True
                 ch, p_ = p_, parent(p_)
+            # (locals that name the list of media: `media = self.media`)
+            al_ = {s_.targets[0].id for s_ in walk_no_nested(g.node) if isinstance(s_, ast.Assign) and len(s_.targets) == 1
+                   and isinstance(s_.targets[0], ast.Name) and norm(s_.value) == 'self.media'}
+            for a_ in al_:
+                tests = [re.sub(r'\b%s\b' % re.escape(a_), 'self.media', t_) for t_ in tests]
             recv = norm(c.func.value)
             if isinstance(c.func.value, ast.Name):
                 # (a local that names the last medium)
@@ -264,6 +269,8 @@ def check_media_chain(ctx, ck, rule='R-PAIR.media-chain'):
                        and isinstance(s_.targets[0], ast.Name) and s_.targets[0].id == recv]
                 if len(ds_) == 1:
                     recv = norm(ds_[0])
+            for a_ in al_:
+                recv = re.sub(r'\b%s\b' % re.escape(a_), 'self.media', recv)
             single = any(re.search(r'len\(self\.media\) == 1|len\(self\.media\) < 2|len\(self\.media\) <= 1', t_) for t_ in tests)
             last = recv.endswith('media[-1]') or any(re.search(r'len\(self\.media\) - 1|media\[-1\]', t_) for t_ in tests)
             ok = single or last or not destructive
